@@ -51,8 +51,10 @@ MANIFEST = {
             "code on generated inputs, variants (two detect repairs, canonical-text id check, regex end, TAXII sink dict "
             "branch) detected at run time.  ORACLE-ONLY: same outcome as a direct parse with the entry's own switches; result "
             "class registered for the named version; library output keeps its class without a version; history independence "
-            "(answer does not depend on an earlier question about the same id; confirmed in a fresh interpreter); mixed-version "
-            "stores read back without a version.  `emitted` is NOT connected by a theorem to the serialiser model of the schema "
+            "(answer does not depend on an earlier question about the same id or on flags used before; confirmed in a fresh "
+            "interpreter); mixed-version stores read back without a version; position independence of the identifier rule (own id vs "
+            "reference); same answers under TZ=JST-9; every public argument form of the parser functions (dict, text, bytes, "
+            "file-like, object, positional).  `emitted` is NOT connected by a theorem to the serialiser model of the schema "
             "family: 'content the library produced' rests on that relation plus the own-output oracle (real serialisations of "
             "every class of both versions, through every route).  'Honoured / same strictness' in the theorems means argument "
             "forwarding in the static table.  The TAXII "
